@@ -46,5 +46,7 @@ TECHNIQUE = ('contract-based deductive verification (call-site obligations / gho
              'whole-package frame scans of the bind / close sites')
 LEVEL_TEXT = ('Every worker is created by the one Popen call in Process.spawn with close_fds = not use_fds, where use_fds is '
               'the watcher\'s use_sockets for every generation; managed sockets are bound only at initialize / config reload / '
-              'per-worker SO_REUSEPORT clones and closed as a set only by the shutdown closer.')
-LEVEL_NOTE = 'Kernel-level inheritance and the fd substitution in the command line are trusted, not decided.'
+              'per-worker SO_REUSEPORT clones and closed as a set only by the shutdown closer; the snapshot a config reload compares a '
+              're-read socket section with (CircusSocket._cfg) is a copy of the raw section.')
+LEVEL_NOTE = ('Kernel-level inheritance and the fd substitution in the command line are trusted, not decided; the comparison and '
+              'the close / rebind inside Arbiter.reload_from_config are not under contract.')
